@@ -2292,3 +2292,210 @@ Proof. unfold load_namespace. apply load_names. Qed.
 
 Theorem load_namespace_total fmt fn cmds allow ns c : load_namespace fmt fn L2 cmds allow ns <> Crash c.
 Proof. unfold load_namespace. apply load_total. Qed.
+
+(* ------------------------------------------------------------------ the value a creator gives, before the isinstance tests
+   ([pyres], [classify]): nothing that is not a task definition is accepted, whatever its truth value *)
+Open Scope string_scope.
+
+(* `s in d` / d.get(s) on a dict given with arbitrary keys *)
+Definition has_key (kv : list (val * val)) (s : string) : bool := existsb (fun p => veq (fst p) (VStr s)) kv.
+Definition vget (kv : list (val * val)) (s : string) : option val :=
+  match find (fun p => veq (fst p) (VStr s)) kv with Some p => Some (snd p) | None => None end.
+
+Definition key_name (k : key) : option string :=
+  match k with KName => Some "name" | KBasename => Some "basename" | KAttr a => Some (attr_name a) | KUnknown _ => None end.
+
+Lemma attr_of_string_name a : attr_of_string (attr_name a) = Some a.
+Proof. destruct a; reflexivity. Qed.
+
+Lemma attr_of_string_some s a : attr_of_string s = Some a -> s = attr_name a.
+Proof.
+  unfold attr_of_string. intros H. apply find_some in H. destruct H as [_ H].
+  apply String.eqb_eq in H. auto.
+Qed.
+
+Lemma attr_eqb_names a b : attr_eqb a b = String.eqb (attr_name a) (attr_name b).
+Proof. destruct a, b; reflexivity. Qed.
+
+Lemma veq_nonstr v s : is_str v = false -> veq v (VStr s) = false.
+Proof. destruct v; simpl; try discriminate; try reflexivity; intros _; destruct l; reflexivity || destruct kv; reflexivity. Qed.
+
+Lemma key_of_val_eqb v k s : key_name k = Some s -> key_eqb (key_of_val v) k = veq v (VStr s).
+Proof.
+  intros Hk. destruct (is_str v) eqn:Es.
+  2:{ rewrite veq_nonstr; auto. destruct v; try discriminate; destruct k; try discriminate; reflexivity. }
+  destruct v as [s0| | | | | | | | | | | | |]; try discriminate. simpl veq. unfold key_of_val.
+  destruct (String.eqb s0 "name") eqn:E1.
+  { apply String.eqb_eq in E1. subst s0. destruct k as [| |a|n]; simpl in Hk; inversion Hk; subst; try reflexivity.
+    destruct a; reflexivity. }
+  destruct (String.eqb s0 "basename") eqn:E2.
+  { apply String.eqb_eq in E2. subst s0. destruct k as [| |a|n]; simpl in Hk; inversion Hk; subst; try reflexivity.
+    destruct a; reflexivity. }
+  destruct (attr_of_string s0) as [a'|] eqn:E3.
+  { apply attr_of_string_some in E3. subst s0.
+    destruct k as [| |a|n]; simpl in Hk; inversion Hk; subst; simpl; auto.
+    apply attr_eqb_names. }
+  destruct k as [| |a|n]; simpl in Hk; inversion Hk; subst; simpl; auto.
+  destruct (String.eqb s0 (attr_name a)) eqn:E4; auto.
+  apply String.eqb_eq in E4. subst s0. rewrite attr_of_string_name in E3. discriminate.
+Qed.
+
+Lemma dget_tdict_of kv k s : key_name k = Some s -> dget (tdict_of kv) k = vget kv s.
+Proof.
+  intros Hk. unfold vget. induction kv as [|[k0 v0] r IH]; simpl; auto.
+  rewrite (key_of_val_eqb k0 k s Hk). destruct (veq k0 (VStr s)); auto.
+Qed.
+
+Lemma dhas_tdict_of kv k s : key_name k = Some s -> dhas (tdict_of kv) k = has_key kv s.
+Proof.
+  intros Hk. unfold dhas. rewrite (dget_tdict_of kv k s Hk). unfold vget, has_key.
+  induction kv as [|[k0 v0] r IH]; simpl; auto. destruct (veq k0 (VStr s)); auto.
+Qed.
+
+(* induction over the nested type *)
+Fixpoint pyres_rect' (P : pyres -> Type) (Q : list pyres -> Type)
+  (hv : forall v, P (PVal v)) (ht : forall nm attrs, P (PTaskObj nm attrs))
+  (hg : forall l, Q l -> P (PGen l)) (hn : Q []) (hc : forall r l, P r -> Q l -> Q (r :: l))
+  (r : pyres) {struct r} : P r :=
+  match r with
+  | PVal v => hv v
+  | PTaskObj nm attrs => ht nm attrs
+  | PGen l => hg l ((fix go (l : list pyres) : Q l :=
+                       match l with [] => hn | x :: l' => hc x l' (pyres_rect' P Q hv ht hg hn hc x) (go l') end) l)
+  end.
+
+Lemma flat_classify r : flat (classify r) = map classify (pflat r).
+Proof.
+  apply (pyres_rect' (fun r => flat (classify r) = map classify (pflat r))
+                     (fun l => flat_map flat (map classify l) = map classify (flat_map pflat l))).
+  - intros v. destruct v; try reflexivity.
+  - reflexivity.
+  - intros l H. simpl. exact H.
+  - reflexivity.
+  - intros x l Hx Hl. simpl. rewrite Hx, Hl, map_app. reflexivity.
+Qed.
+
+Lemma flat_map_classify l : flat_map flat (map classify l) = map classify (flat_map pflat l).
+Proof. induction l as [|x l IH]; simpl; auto. rewrite flat_classify, IH, map_app. reflexivity. Qed.
+
+(* every non-None, non-dict, non-generator, non-Task result is rejected -- the falsy ones [] () '' 0 0.0 False
+   exactly like 42 or object() *)
+Theorem generate_tasks_py_value_rejected fmt lv func v :
+  v <> VNone -> is_dict v = false -> generate_tasks_py fmt lv func (PVal v) = Invalid InvalidTask.
+Proof. intros Hn Hd. destruct v; try discriminate; try reflexivity. congruence. Qed.
+
+(* ... only None means "no task"; and a generator that yields nothing gives the (empty) group task *)
+Lemma generate_tasks_py_none fmt lv func : generate_tasks_py fmt lv func (PVal VNone) = Ok [].
+Proof. reflexivity. Qed.
+
+(* every returned dict without `actions` is rejected: {} included; so is every returned dict with `name` *)
+Theorem generate_tasks_py_dict_rejected fmt lv func kv :
+  has_key kv "actions" = false \/ has_key kv "name" = true ->
+  generate_tasks_py fmt lv func (PVal (VDict kv)) = Invalid InvalidTask.
+Proof.
+  intros H. unfold generate_tasks_py. simpl. unfold from_return.
+  rewrite (dhas_tdict_of kv KName "name" eq_refl).
+  destruct (has_key kv "name") eqn:En; [reflexivity|]. simpl.
+  destruct H as [H|H]; [|discriminate].
+  unfold dict_to_task. rewrite (dhas_tdict_of kv (KAttr AActions) "actions" eq_refl). rewrite H. reflexivity.
+Qed.
+
+Lemma has_key_find (kv : list (val * val)) s : existsb (fun p => veq (fst p) (VStr s)) kv = true <-> find (fun p => veq (fst p) (VStr s)) kv <> None.
+Proof.
+  induction kv as [|[k0 v0] r IH]; simpl.
+  - split; intros H; [discriminate | congruence].
+  - destruct (veq k0 (VStr s)); simpl; [|exact IH]. split; intros _; [discriminate | reflexivity].
+Qed.
+
+(* what an accepted creator result looks like, stated on the Python values themselves *)
+Definition yielded_ok (r : pyres) : Prop :=
+  match r with
+  | PVal (VDict kv) =>
+      (has_key kv "actions" = true \/ vget kv "name" = Some VNone) /\        (* actions, unless it is a group definition *)
+      (has_key kv "name" = true \/ exists s, vget kv "basename" = Some (VStr s) /\ s <> EmptyString)
+  | PVal _ => False                 (* None included: "must yield dictionaries" *)
+  | PTaskObj nm _ => is_str nm = true
+  | PGen _ => True                  (* flattened: never an element of [pflat] *)
+  end.
+Definition returned_ok (r : pyres) : Prop :=
+  match r with
+  | PVal VNone => True
+  | PVal (VDict kv) => has_key kv "actions" = true /\ has_key kv "name" = false
+  | PVal _ => False
+  | PTaskObj nm _ => is_str nm = true
+  | PGen l => forall x, In x (flat_map pflat l) -> yielded_ok x
+  end.
+
+Lemma yield_accepted_py r : yield_accepted (classify r) -> yielded_ok r.
+Proof.
+  destruct r as [v|nm attrs|l]; simpl.
+  - destruct v; simpl; try tauto.
+    intros [_ H]. rewrite (dget_tdict_of kv KName "name" eq_refl) in H.
+    unfold has_key at 2. unfold vget in *.
+    pose proof (has_key_find kv) as HK.
+    destruct (find (fun p => veq (fst p) (VStr "name")) kv) as [p|] eqn:Ef.
+    + assert (Hn : existsb (fun p => veq (fst p) (VStr "name")) kv = true) by (apply HK; rewrite Ef; discriminate).
+      split; [|left; exact Hn].
+      destruct (is_none (snd p)) eqn:En.
+      * right. destruct (snd p); try discriminate. reflexivity.
+      * left. destruct H as [_ [_ [[F|Ha] _]]]; [discriminate|].
+        rewrite (dhas_tdict_of kv (KAttr AActions) "actions" eq_refl) in Ha. exact Ha.
+    + destruct H as [[_ [[F|Ha] _]] [s [Hb Hs]]]; [discriminate|].
+      rewrite (dhas_tdict_of kv (KAttr AActions) "actions" eq_refl) in Ha.
+      rewrite (dget_tdict_of kv KBasename "basename" eq_refl) in Hb. unfold vget in Hb.
+      split; [left; exact Ha|]. right. exists s. split; auto.
+  - intros [H _]. exact H.
+  - tauto.
+Qed.
+
+Lemma result_accepted_py r : result_accepted (classify r) -> returned_ok r.
+Proof.
+  destruct r as [v|nm attrs|l]; simpl.
+  - destruct v; simpl; try tauto.
+    intros [Hn [[_ [[F|Ha] _]] _]]; [discriminate|].
+    rewrite (dhas_tdict_of kv (KAttr AActions) "actions" eq_refl) in Ha.
+    rewrite (dhas_tdict_of kv KName "name" eq_refl) in Hn. auto.
+  - intros [H _]. exact H.
+  - rewrite flat_map_classify. intros H x Hx. rewrite Forall_forall in H.
+    apply yield_accepted_py. apply H. apply in_map. exact Hx.
+Qed.
+
+(* if generate_tasks accepts what the creator gave, it had that shape (at load time and, for a create_after
+   creator, when TaskDispatcher calls it at run time) *)
+Theorem generate_tasks_py_accepted fmt func r ts :
+  generate_tasks_py fmt L2 func r = Ok ts -> returned_ok r.
+Proof. unfold generate_tasks_py. intros H. apply result_accepted_py. eapply generate_tasks_accepted; eauto. Qed.
+
+(* read the other way for what a generator yields: one yielded value -- at any nesting depth, whatever comes before
+   or after it -- that is not a dict, a Task or a generator (None, [], 0, '' ...) and the generator is not accepted *)
+Theorem generate_tasks_py_yield_rejected fmt func l v ts :
+  In (PVal v) (flat_map pflat l) -> is_dict v = false -> generate_tasks_py fmt L2 func (PGen l) <> Ok ts.
+Proof.
+  intros Hin Hd H. apply generate_tasks_py_accepted in H. simpl in H. specialize (H _ Hin).
+  destruct v; simpl in *; try contradiction; discriminate.
+Qed.
+
+(* ... and a yielded dict without `actions` (unless it is the group definition `name: None`), or with neither `name`
+   nor a non-empty str `basename` *)
+Theorem generate_tasks_py_yield_dict_rejected fmt func l kv ts :
+  In (PVal (VDict kv)) (flat_map pflat l) ->
+  (has_key kv "actions" = false /\ vget kv "name" <> Some VNone) \/
+  (has_key kv "name" = false /\ forall s, vget kv "basename" = Some (VStr s) -> s = EmptyString) ->
+  generate_tasks_py fmt L2 func (PGen l) <> Ok ts.
+Proof.
+  intros Hin Hbad H. apply generate_tasks_py_accepted in H. simpl in H. specialize (H _ Hin). simpl in H.
+  destruct H as [[Ha|Hn] [Hm|[s [Hb Hs]]]]; destruct Hbad as [[B1 B2]|[B1 B2]]; try congruence.
+  all: apply Hs; apply B2; exact Hb.
+Qed.
+
+(* the same for a whole namespace: every creator that is called at load time *)
+Theorem load_py_accepted fmt fn cmds allow cs ts :
+  load_py fmt fn L2 cmds allow cs = Ok ts ->
+  forall c, In c cs -> runs allow (creator_of c) = true -> returned_ok (pc_result c).
+Proof.
+  unfold load_py. intros H c Hc Hr. apply load_accepted in H. destruct H as [_ H].
+  apply result_accepted_py. apply (H (creator_of c)); auto. apply in_map. exact Hc.
+Qed.
+
+Theorem load_py_total fmt fn cmds allow cs c : load_py fmt fn L2 cmds allow cs <> Crash c.
+Proof. unfold load_py. apply load_total. Qed.
